@@ -3,7 +3,10 @@
 //! Case lines `C09.<class>.<Trait>.<method> <receiver> <tokens…>`; classes:
 //!   m  invalid argument, the driver runs the Lean model of the operation      -> outcome class must be `err`
 //!   b  non-fitting operand shape, the driver runs the shared broadcasting funnel (`Arr.broadcast`) -> `err`
-//!   u  invalid argument, operation not modelled: the driver answers the constant `err` (class only)
+//!   u  invalid argument, operation not modelled: the driver answers the constant `err` (class only) — since round 5 only diff,
+//!      unwrap_phase, insert(axis), linspace_a / logspace_a / geomspace_a, eig / eigvals and the failing-closure lines of apply_along_axis;
+//!      slice, indices_at, repeat(None), the linalg products, det / qr / solve, norm and every option-name line are class m
+//!      (Driver/C09.lean: runOption / runForeign run the models of C02-ext, C13, C14, C15, C10, C19 and the table parsers)
 //!   o  region the statement leaves open (tolerated/clamped arguments): only `panic`/`hang` is a failure
 //!   n  smoke call with default arguments on ordinary, unit and empty receivers: only `panic`/`hang` is a failure
 //!   t  extreme argument values the statement does not call invalid: only `panic`/`hang` is a failure
@@ -536,8 +539,8 @@ fn gen_shape(g: &mut Gen, s: &[usize]) {
         for &(tr, m) in AXIS_REDUCE { g.e("m", tr, m, s, &[b.clone()]); }
         g.e("u", "ArraySumProdDiff", "diff", s, &[b.clone()]);
         g.e("u", "ArrayTrigonometric", "unwrap_phase", s, &[b.clone()]);
-        g.e("u", "ArrayLinalgNorms", "norm", s, &[none.clone(), b.clone()]);
-        g.e("u", "ArrayLinalgNorms", "norm", s, &[none.clone(), format!("0,{b}")]);
+        g.e("m", "ArrayLinalgNorms", "norm", s, &[none.clone(), b.clone()]);
+        g.e("m", "ArrayLinalgNorms", "norm", s, &[none.clone(), format!("0,{b}")]);
         // ---- ArrayAxis
         for p in 0..r { let mut ax: Vec<String> = ident.iter().map(|x| x.to_string()).collect(); ax[p] = b.clone(); g.e("m", "ArrayAxis", "transpose", s, &[ax.join(",")]); }
         g.e("m", "ArrayAxis", "moveaxis", s, &[b.clone(), st("0")]);
@@ -570,7 +573,7 @@ fn gen_shape(g: &mut Gen, s: &[usize]) {
     if r >= 2 { g.e("m", "ArrayAxis", "moveaxis", s, &[st("0,1"), st("0")]); g.e("m", "ArrayAxis", "moveaxis", s, &[st("0,0"), st("0,1")]); g.e("m", "ArrayAxis", "transpose", s, &[format!("0,{}", id(r - 1))]); }
     g.e("m", "ArrayReorder", "roll", s, &[st("1,2,3"), st("0,0")]);
     if r >= 2 { for ax in ["0", "0,1,0", "-"] { g.e("m", "ArrayReorder", "rot90", s, &[st("1"), st(ax)]); } }
-    for ax in ["0,1,2", "0,1,2,3", "-"] { g.e("u", "ArrayLinalgNorms", "norm", s, &[none.clone(), st(ax)]); }
+    for ax in ["0,1,2", "0,1,2,3", "-"] { g.e("m", "ArrayLinalgNorms", "norm", s, &[none.clone(), st(ax)]); }
     // repeated (aliased) axes: not named by the statement -> only a panic is a failure
     g.e("o", "ArrayAxis", "squeeze", s, &[st("0,0")]);
     g.e("o", "ArrayAxis", "squeeze", s, &[format!("0,-{r}")]);
@@ -602,13 +605,13 @@ fn gen_shape(g: &mut Gen, s: &[usize]) {
         g.e("m", "ArrayManipulate", "delete", s, &[i.to_string(), none.clone()]);
         g.e("m", "ArrayManipulate", "delete", s, &[format!("0,{i}"), none.clone()]);
         if i > n { g.e("m", "ArrayManipulate", "insert", s, &[i.to_string(), st("1"), none.clone()]); g.e("m", "ArrayManipulate", "insert", s, &[format!("0,{i}"), st("2"), none.clone()]); }
-        if i > n { g.e("u", "ArrayIndexing", "slice", s, &[st("0"), i.to_string()]); }
+        if i > n { g.e("m", "ArrayIndexing", "slice", s, &[st("0"), i.to_string()]); }
     }
-    g.e("u", "ArrayIndexing", "slice", s, &[st("2"), st("1")]);
-    g.e("u", "ArrayIndexing", "slice", s, &[(n + 1).to_string(), (n + 2).to_string()]);
+    g.e("m", "ArrayIndexing", "slice", s, &[st("2"), st("1")]);
+    g.e("m", "ArrayIndexing", "slice", s, &[(n + 1).to_string(), (n + 2).to_string()]);
     if r >= 2 { for st0 in [s[0], s[0] + 1] { if st0 + 1 <= n { g.e("o", "ArrayIndexing", "slice", s, &[st0.to_string(), (st0 + 1).to_string()]); } if st0 <= n { g.e("o", "ArrayIndexing", "slice", s, &[st0.to_string(), st0.to_string()]); } } }
     let bound = if r == 1 { n } else { s[0] };
-    for i in [bound, bound + 1, usize::MAX] { g.e("u", "ArrayIndexing", "indices_at", s, &[i.to_string()]); g.e("u", "ArrayIndexing", "indices_at", s, &[format!("0,{i}")]); }
+    for i in [bound, bound + 1, usize::MAX] { g.e("m", "ArrayIndexing", "indices_at", s, &[i.to_string()]); g.e("m", "ArrayIndexing", "indices_at", s, &[format!("0,{i}")]); }
     for ax in 0..r {
         for i in [s[ax], s[ax] + 1, usize::MAX] { g.e("m", "ArrayManipulate", "delete", s, &[i.to_string(), ax.to_string()]); }
         for i in [s[ax] + 1, s[ax] + 2, usize::MAX] { g.e("u", "ArrayManipulate", "insert", s, &[i.to_string(), st("1"), ax.to_string()]); }
@@ -620,7 +623,7 @@ fn gen_shape(g: &mut Gen, s: &[usize]) {
     for sh in [vec![n + 1], vec![n, 2], vec![0], vec![n + 1, 1], if n == 1 { vec![2] } else { vec![] }] { if n == 0 && sh.contains(&0) { continue; } g.e("m", "ArrayManipulate", "reshape", s, &[l(&sh)]); }
     for cnt in [n + 1, n + 2, n.saturating_sub(1) + 2 * (n == 0) as usize] { if cnt != n { g.e("m", "ArrayCreate", "new", s, &[cnt.to_string(), l(s)]); g.e("m", "ArrayCreate", "create", s, &[cnt.to_string(), l(s), st("3")]); } }
     if n != 1 { g.e("m", "ArrayCreate", "new", s, &[st("1"), l(s)]); }
-    if n > 0 { g.e("u", "ArrayTiling", "repeat", s, &[l(&vec![1usize; n + 1]), none.clone()]); }
+    if n > 0 { g.e("m", "ArrayTiling", "repeat", s, &[l(&vec![1usize; n + 1]), none.clone()]); }
     if let Some(c) = clash(s) {
         let c = l(&c);
         g.e("m", "ArrayBroadcast", "broadcast_to", s, &[c.clone()]);
@@ -648,12 +651,12 @@ fn gen_shape(g: &mut Gen, s: &[usize]) {
     if n > 0 { g.e("m", "ArrayBroadcast", "broadcast_to", s, &[st("0")]); }
     // linalg: operands that are not aligned / not square
     if r == 2 && s[0] != s[1] {
-        for m in ["dot", "matmul"] { g.e("u", "ArrayLinalgProducts", m, s, &[l(s)]); }
-        for (tr, m) in [("ArrayLinalgNorms", "det"), ("ArrayLinalgDecompositions", "qr"), ("ArrayLinalgEigen", "eig"), ("ArrayLinalgEigen", "eigvals")] { g.e("u", tr, m, s, &[]); }
-        g.e("u", "ArrayLinalgSolvingInvertingProducts", "solve", s, &[l(&[s[0]])]);
+        for m in ["dot", "matmul"] { g.e("m", "ArrayLinalgProducts", m, s, &[l(s)]); }
+        for (tr, m) in [("ArrayLinalgNorms", "det"), ("ArrayLinalgDecompositions", "qr"), ("ArrayLinalgEigen", "eig"), ("ArrayLinalgEigen", "eigvals")] { g.e(if tr == "ArrayLinalgEigen" { "u" } else { "m" }, tr, m, s, &[]); }
+        g.e("m", "ArrayLinalgSolvingInvertingProducts", "solve", s, &[l(&[s[0]])]);
     }
-    if r == 2 && s[0] == s[1] && s[0] >= 2 { g.e("u", "ArrayLinalgSolvingInvertingProducts", "solve", s, &[l(&[s[0] + 1])]); }
-    if r == 1 && s[0] >= 2 { g.e("u", "ArrayLinalgProducts", "vdot", s, &[l(&[s[0] + 1])]); g.e("u", "ArrayLinalgProducts", "inner", s, &[l(&[s[0] + 1])]); g.e("u", "ArrayLinalgProducts", "dot", s, &[l(&[s[0] + 1])]); g.e("u", "ArrayLinalgProducts", "matmul", s, &[l(&[s[0] + 1])]); }
+    if r == 2 && s[0] == s[1] && s[0] >= 2 { g.e("m", "ArrayLinalgSolvingInvertingProducts", "solve", s, &[l(&[s[0] + 1])]); }
+    if r == 1 && s[0] >= 2 { g.e("m", "ArrayLinalgProducts", "vdot", s, &[l(&[s[0] + 1])]); g.e("m", "ArrayLinalgProducts", "inner", s, &[l(&[s[0] + 1])]); g.e("m", "ArrayLinalgProducts", "dot", s, &[l(&[s[0] + 1])]); g.e("m", "ArrayLinalgProducts", "matmul", s, &[l(&[s[0] + 1])]); }
     // ---- zero parts
     for ax in [none.clone(), st("0")] { g.e("m", "ArraySplit", "array_split", s, &[st("0"), ax.clone()]); g.e("m", "ArraySplit", "split", s, &[st("0"), ax]); }
     for m in ["hsplit", "vsplit", "dsplit"] { g.e("m", "ArraySplit", m, s, &[st("0")]); }
@@ -663,14 +666,14 @@ fn gen_shape(g: &mut Gen, s: &[usize]) {
     for sp in ["Quick sort", "", "STABLE ", "bigg"] {
         let h = hex(sp);
         for fl in ["str", "string"] {
-            g.e("u", "ArraySort", "sort", s, &[none.clone(), h.clone(), st(fl)]);
-            g.e("u", "ArraySort", "argsort", s, &[st("0"), h.clone(), st(fl)]);
-            g.e("u", "ArrayStringCompare", "compare", s, &[l(s), h.clone(), st(fl)]);
-            g.e("u", "ArrayBinaryBits", "pack_bits", s, &[none.clone(), h.clone(), st(fl)]);
-            g.e("u", "ArrayBinaryBits", "unpack_bits", s, &[none.clone(), none.clone(), h.clone(), st(fl)]);
-            g.e("u", "ArrayLinalgNorms", "norm", s, &[h.clone(), none.clone(), none.clone(), st(fl)]);
-            g.e("u", "ArrayLinalgNorms", "norm", s, &[h.clone(), st("0"), none.clone(), st(fl)]);
-            g.e("u", "ArrayMathMisc", "convolve", s, &[st("2"), h.clone(), st(fl)]);
+            g.e("m", "ArraySort", "sort", s, &[none.clone(), h.clone(), st(fl)]);
+            g.e("m", "ArraySort", "argsort", s, &[st("0"), h.clone(), st(fl)]);
+            g.e("m", "ArrayStringCompare", "compare", s, &[l(s), h.clone(), st(fl)]);
+            g.e("m", "ArrayBinaryBits", "pack_bits", s, &[none.clone(), h.clone(), st(fl)]);
+            g.e("m", "ArrayBinaryBits", "unpack_bits", s, &[none.clone(), none.clone(), h.clone(), st(fl)]);
+            g.e("m", "ArrayLinalgNorms", "norm", s, &[h.clone(), none.clone(), none.clone(), st(fl)]);
+            g.e("m", "ArrayLinalgNorms", "norm", s, &[h.clone(), st("0"), none.clone(), st(fl)]);
+            g.e("m", "ArrayMathMisc", "convolve", s, &[st("2"), h.clone(), st(fl)]);
         }
     }
 }
@@ -733,16 +736,16 @@ fn gen_options(g: &mut Gen, s: &[usize]) {
         let h = hex(sp);
         for fl in ["str", "string"] {
             for ax in [none.clone(), st("0"), st("-1")] {
-                g.e("u", "ArraySort", "sort", s, &[ax.clone(), h.clone(), st(fl)]);
-                g.e("u", "ArraySort", "argsort", s, &[ax.clone(), h.clone(), st(fl)]);
-                g.e("u", "ArrayBinaryBits", "pack_bits", s, &[ax.clone(), h.clone(), st(fl)]);
-                g.e("u", "ArrayBinaryBits", "unpack_bits", s, &[ax.clone(), none.clone(), h.clone(), st(fl)]);
+                g.e("m", "ArraySort", "sort", s, &[ax.clone(), h.clone(), st(fl)]);
+                g.e("m", "ArraySort", "argsort", s, &[ax.clone(), h.clone(), st(fl)]);
+                g.e("m", "ArrayBinaryBits", "pack_bits", s, &[ax.clone(), h.clone(), st(fl)]);
+                g.e("m", "ArrayBinaryBits", "unpack_bits", s, &[ax.clone(), none.clone(), h.clone(), st(fl)]);
             }
-            g.e("u", "ArrayStringCompare", "compare", s, &[l(s), h.clone(), st(fl)]);
-            g.e("u", "ArrayStringCompare", "compare", s, &[st("1"), h.clone(), st(fl)]);
-            g.e("u", "ArrayLinalgNorms", "norm", s, &[h.clone(), none.clone(), none.clone(), st(fl)]);
-            g.e("u", "ArrayLinalgNorms", "norm", s, &[h.clone(), st("0"), st("true"), st(fl)]);
-            g.e("u", "ArrayMathMisc", "convolve", s, &[st("2"), h.clone(), st(fl)]);
+            g.e("m", "ArrayStringCompare", "compare", s, &[l(s), h.clone(), st(fl)]);
+            g.e("m", "ArrayStringCompare", "compare", s, &[st("1"), h.clone(), st(fl)]);
+            g.e("m", "ArrayLinalgNorms", "norm", s, &[h.clone(), none.clone(), none.clone(), st(fl)]);
+            g.e("m", "ArrayLinalgNorms", "norm", s, &[h.clone(), st("0"), st("true"), st(fl)]);
+            g.e("m", "ArrayMathMisc", "convolve", s, &[st("2"), h.clone(), st(fl)]);
         }
     }
     for b in bad_i(r) {
@@ -755,8 +758,8 @@ fn gen_options(g: &mut Gen, s: &[usize]) {
             }
             g.e("m", "ArrayBinaryBits", "pack_bits", s, &[b.clone(), hex("little"), st(fl)]);
             g.e("m", "ArrayBinaryBits", "unpack_bits", s, &[b.clone(), none.clone(), hex("BIG"), st(fl)]);
-            g.e("u", "ArrayLinalgNorms", "norm", s, &[hex("fro"), b.clone(), none.clone(), st(fl)]);
-            g.e("u", "ArrayLinalgNorms", "norm", s, &[hex("-inf"), format!("0,{b}"), st("true"), st(fl)]);
+            g.e("m", "ArrayLinalgNorms", "norm", s, &[hex("fro"), b.clone(), none.clone(), st(fl)]);
+            g.e("m", "ArrayLinalgNorms", "norm", s, &[hex("-inf"), format!("0,{b}"), st("true"), st(fl)]);
         }
     }
     if let Some(c) = clash(s) {
@@ -787,7 +790,7 @@ fn gen_repeated_axes(g: &mut Gen, s: &[usize]) {
             g.e("m", "ArrayReorder", "roll", s, &[ones(&l), l.clone()]);
             g.e("m", "ArrayReorder", "rot90", s, &[st("1"), l.clone()]);
             g.e("m", "ArrayReorder", "rot90", s, &[st("2"), l.clone()]);
-            g.e("u", "ArrayLinalgNorms", "norm", s, &[none.clone(), l.clone()]);
+            g.e("m", "ArrayLinalgNorms", "norm", s, &[none.clone(), l.clone()]);
         }
         // a transposition list of the right length in which the invalid axis takes two / all places
         if r >= 2 { let mut ax: Vec<String> = (0..r).map(|x| x.to_string()).collect(); ax[0] = b.clone(); ax[r - 1] = b.clone(); g.e("m", "ArrayAxis", "transpose", s, &[ax.join(",")]); }
